@@ -251,7 +251,7 @@ exactly `N + K − 1 = 5` steps. -/
 def exInst : Inst :=
   { N := 4, K := 2, split0 := 3, KG := 2, cap := fun _ => 1, D := fun _ _ => 1, openMode := false,
     wNum := 0, wDen := 1 }
-example : WF exInst := ⟨by decide, by decide, by decide, by decide, by decide⟩
+example : WF exInst := ⟨by decide, by decide, by decide, by decide, by decide, by decide⟩
 example : RunND env exInst (env.reset exInst) [0, 2, 3, 0, 1]
     (exec env exInst (env.reset exInst) [0, 2, 3, 0, 1]) := by
   refine RunND.cons (by decide) (by decide) (by decide) ?_
